@@ -338,6 +338,10 @@ func (e *Engine) listen(ln net.Listener, tlsConfig *tls.Config, addConn func(*Co
 			conn, err := ln.Accept()
 			if err == nil && !e.shutdown {
 				addConn(&Conn{Conn: conn}, tlsConfig, decrease)
+			} else if err == nil {
+				// accepted while stopping: do not leave it open.
+				_ = conn.Close()
+				decrease()
 			} else {
 				var ne net.Error
 				if ok := errors.As(err, &ne); ok && ne.Timeout() {
@@ -769,6 +773,10 @@ func (engine *Engine) AddConnNonTLSBlocking(conn *Conn, tlsConfig *tls.Config, d
 	conn.Parser = parser
 	_ = conn.SetReadDeadline(time.Now().Add(engine.KeepaliveTime))
 	go engine.readConnBlocking(conn, parser, decrease)
+	if engine.shutdown {
+		// Stop may already have closed the connections it knew.
+		_ = conn.Close()
+	}
 }
 
 // AddConnTLSNonBlocking .
@@ -879,6 +887,10 @@ func (engine *Engine) AddConnTLSBlocking(conn *Conn, tlsConfig *tls.Config, decr
 	_ = conn.SetReadDeadline(time.Now().Add(engine.KeepaliveTime))
 	tlsConn.SetSession(parser)
 	go engine.readTLSConnBlocking(conn, underLayerConn, tlsConn, parser, decrease)
+	if engine.shutdown {
+		// Stop may already have closed the connections it knew.
+		_ = underLayerConn.Close()
+	}
 }
 
 //go:norace
